@@ -101,12 +101,45 @@ def ms_term(S, ms):
     return "(mk [%s] %s %s %s)" % ("; ".join(rows), resp, "true" if ms.ignoreUnknown else "false", "true" if ms.acceptUnknown else "false")
 
 
+def effective_argspec(inherit):
+    """the declaration that governs inherit["meth"] for a target implementing interface number inherit["level"] of the
+    chain (root first; a layer is a list of [method name, argspec]): the one of the most derived interface at or below
+    that level that declares the name itself; None: no interface of the resolution order declares it"""
+    for i in range(inherit["level"], -1, -1):
+        for name, argspec in inherit["chain"][i]:
+            if name == inherit["meth"]:
+                return [tuple(x) for x in argspec]
+    return None
+
+
+def wrap_in_chain(S, argspec, irng):
+    """the declaration argspec of method m placed in a chain of RemoteInterfaces in which ANOTHER declaration of m (every
+    constraint perturbed) stands above or below it, so that argspec stays the declaration in force: it overrides the
+    other one / it is the base of a sub-interface the target does not implement / it is inherited through a leaf that
+    only adds a method.  -> inherit dict (chain, level, meth)"""
+    other = [(n, S.perturb(cs, irng), opt) for n, cs, opt in argspec]
+    how = irng.choice(["overrides", "base-of-unused-override", "inherited-through-leaf"])
+    if how == "overrides":
+        chain, level = [[["m", other]], [["m", argspec]]], 1
+    elif how == "base-of-unused-override":
+        chain, level = [[["m", argspec]], [["m", other]]], 0
+    else:
+        chain, level = [[["m", other]], [["m", argspec]], [["n", other]]], 2
+    return dict(tag="gen-" + how, chain=chain, level=level, meth="m")
+
+
 def run(ctx):
     ctx.rule = ("(method schema of 1-3 arguments built through the public vocabulary, argument values obtained by inverting "
                 "checkObject and sitting on the 2^31 / 2^(8*maxBytes) / maxLength / maxKeys / arity boundaries, plus "
-                "near-misses generated for a perturbed constraint); each is a real callRemote over a loopback Broker pair "
+                "near-misses generated for a perturbed constraint), plus text that every UnicodeConstraint accepts but that has no "
+                "UTF-8 form (lone surrogates) and its encodable neighbours in every kind of slot, as argument and as result, plus "
+                "RemoteInterfaces that derive from one another (re-declared / inherited / added methods, every level); each is a real "
+                "callRemote over a loopback Broker pair "
                 "sharing the RemoteInterface; non-trivial = the sender's check accepted and something crossed the wire")
-    ctx.assumptions = ["sharing: repeats of one list/tuple/set/dict object inside a call travel as references (Schema.ser, "
+    ctx.assumptions = ["text without a UTF-8 form (a str holding a lone surrogate) passes the schema check but has no serialized form: "
+                       "'refused locally by the sender' = a Violation for that one call while it is serialized, nothing delivered, "
+                       "connection usable (Schema.send_call = None; C12_unencodable_*)",
+                       "sharing: repeats of one list/tuple/set/dict object inside a call travel as references (Schema.ser, "
                        "C12_every_serialization); cyclic values are outside the honest-sender theorems",
                        "vocabulary: the model's slice takes the connection's vocabulary as a parameter (VOCAB tokens carry the index)",
                        "regexp constraints, Copyable constraints, Shared and the OUTBOUND side of RemoteInterface constraints "
@@ -122,13 +155,20 @@ def run(ctx):
     from harness import implenv as E
     with E.quiet():
         cases = oracle(ctx, S, E)
+        try:
+            results = result_cases(ctx, S, E)
+        except Exception as e:
+            import traceback
+            results = []
+            ctx.fail("oracle/implementation-raised", "returning text through a result constraint raised %s: %s" % (type(e).__name__, str(e)[:300]),
+                     replay=dict(traceback=traceback.format_exc()[-1500:]))
         diff = differential(ctx, S, E)
     model_ok = ok
     if not ok:
         ok2, _ = ctx.coq_build(["lib/Schema.vo"])
         model_ok = ok2
     if model_ok:
-        correspond(ctx, S, cases, diff)
+        correspond(ctx, S, cases, diff, results)
     else:
         ctx.note("model does not build: correspondence skipped")
     if not ok and not unknown_failures():
@@ -137,20 +177,29 @@ def run(ctx):
 
 
 # ---------------------------------------------------------------------------------------------------------------
-def one_call(S, E, argspec, args_vs, kwargs_vs, vocab=0, direct=False, per_instance=False, echo=False, preamble=False, flag=None):
+def one_call(S, E, argspec, args_vs, kwargs_vs, vocab=0, direct=False, per_instance=False, echo=False, preamble=False, flag=None,
+             inherit=None):
     """argspec: [(name, cs, optional?)]; -> dict(sender_ok, outcome, delivered, ms term, region set)
-    flag: "__ignoreUnknown__" | "__acceptUnknown__" given to RemoteMethodSchema( **constraints ) as True"""
-    cons = []
-    for n, cs, opt in argspec:
-        c = S.build(cs)
-        cons.append(S.schema.Optional(c, None) if opt else c)
-    names_ = [n for n, _, _ in argspec]
+    flag: "__ignoreUnknown__" | "__acceptUnknown__" given to RemoteMethodSchema( **constraints ) as True
+    inherit: dict(chain, level, meth) -- both ends share interface number `level` of a chain of RemoteInterfaces deriving from
+    one another (root first; a layer is a list of [method name, argspec]); argspec is the declaration in force for meth"""
+    def build_args(spec):
+        cons_ = []
+        for n, cs, opt in spec:
+            c = S.build(cs)
+            cons_.append(S.schema.Optional(c, None) if opt else c)
+        return [n for n, _, _ in spec], cons_
+    names_, cons = build_args(argspec)
     if flag:
         names_, cons, direct = names_ + [flag], cons + [True], True
+    world_kw = {}
+    if inherit:
+        world_kw = dict(chain=[{name: build_args([tuple(x) for x in spec]) + (None,) for name, spec in layer} for layer in inherit["chain"]],
+                        level=inherit["level"], meth=inherit["meth"])
     # echo: the method returns its (single) argument and the interface declares the argument's constraint as the
     # result constraint too: "and symmetrically for results"
     w = S.World(names_, cons, cons[0] if echo else None, vocab=vocab, direct=direct,
-                per_instance=per_instance, echo=echo)
+                per_instance=per_instance, echo=echo, **world_kw)
     memo = {}
     args = tuple(S.to_py(v, memo) for v in args_vs)
     kwargs = {n: S.to_py(v, memo) for n, v in kwargs_vs}
@@ -192,7 +241,11 @@ def one_call(S, E, argspec, args_vs, kwargs_vs, vocab=0, direct=False, per_insta
     elif out[0] == "dead" or not w.alive():
         r["outcome"] = "dead"
     elif out[0] == "violation-local" and not S.is_remote_failure(res[0]):
-        r["outcome"] = "sender-rejects"          # raised locally by callRemote's own check (not a CopiedFailure)
+        # raised locally (not a CopiedFailure): by callRemote's own schema check, or -- when that check accepted -- while
+        # the arguments were being serialized (the slicer of one object refused it: the sequence is ABORTed)
+        r["outcome"] = "sender-rejects" if not sender_ok else "serialization-refused"
+        if sender_ok:
+            r["usable_after"] = w.probe()            # a sibling call on the same connection still works
     elif sender_exc and out[0] == "exc" and sender_exc in str(out[1]) and not sent:
         r["outcome"] = "sender-rejects"          # ... with the AttributeError of the unknown-argument flags; nothing was sent
     elif out[0] in ("violation-local", "violation-remote"):
@@ -205,7 +258,7 @@ def one_call(S, E, argspec, args_vs, kwargs_vs, vocab=0, direct=False, per_insta
     return r
 
 
-def judge(ctx, S, tag, argspec, args_vs, kwargs_vs, r):
+def judge(ctx, S, tag, argspec, args_vs, kwargs_vs, r, inherit=None):
     """the property, on the real code only"""
     reg = set()
     byname = {n: cs for n, cs, _ in argspec}
@@ -214,7 +267,11 @@ def judge(ctx, S, tag, argspec, args_vs, kwargs_vs, r):
     for n, v in kwargs_vs:
         if n in byname:
             reg |= S.regions(byname[n], S.canon_vs(v))
+    if any(S.unencodable(v) for v in args_vs) or any(S.unencodable(v) for _, v in kwargs_vs):
+        reg.add("unencodable-text")
     case = dict(argspec=argspec, args=args_vs, kwargs=kwargs_vs)
+    if inherit:
+        case["inherit"] = inherit
     want_args = ([S.canon_vs(v) for v in args_vs], sorted([n, S.canon_vs(v)] for n, v in kwargs_vs))
     if r["sender_ok"] and r["outcome"] == "delivered" and r.get("echo") is not None and r["delivered"] == want_args:
         # symmetric direction: the target's outbound result check accepted the very same value under the very same
@@ -238,6 +295,13 @@ def judge(ctx, S, tag, argspec, args_vs, kwargs_vs, r):
             else:
                 ctx.fail("oracle/receiver-drops-connection", "the sender's schema check accepted the arguments but the "
                          "connection was lost while the receiver decoded them: %r (%s)" % (case, r["detail"]), replay=case)
+        elif r["outcome"] == "serialization-refused" and "unencodable-text" in reg:
+            # text holding a lone surrogate has no UTF-8 form, hence no serialized form: "refused locally by the sender" --
+            # with a Violation for that one call, nothing delivered, the connection still usable
+            if r["ncalls"] or not r.get("usable_after"):
+                ctx.fail("oracle/serialization-refusal-not-clean", "text without a UTF-8 form was refused while the call was being "
+                         "serialized, but %s: %r" % ("the method ran %d time(s)" % r["ncalls"] if r["ncalls"] else
+                                                     "the connection no longer serves other calls", case), replay=case)
         elif r["outcome"] == "receiver-rejects":
             if "any-huge-int" in reg:
                 ctx.fail("oracle/any-rejects-huge-int", "sender's check accepted, receiver raised %s: %r"
@@ -371,25 +435,165 @@ def remote_outbound(ctx, S, E):
                 ctx.fail("oracle/sender-check-not-applied", "checkAllArgs(outbound) rejects but callRemote produced %r: %r" % (out, case), replay=case)
 
 
+# text that every UnicodeConstraint accepts (checkObject counts code points) but that has no UTF-8 form: 'caf\udce9.t' as
+# os.fsdecode / surrogateescape produce it for a latin-1 file name, a lone high / low surrogate at either end of the
+# range, two lone surrogates in "pair" order (python does not join them), two escaped bytes in a row ...
+UNENCODABLE = [[99, 97, 102, 0xDCE9, 46, 116], [0xD800], [0xDFFF], [97, 0xDBFF, 0xDC00], [0xDC80, 0xDC81, 122]]
+# ... and their encodable neighbours, which must be delivered: U+D7FF, U+E000, U+FFFF, U+10000, U+10FFFF
+ENCODABLE_EDGE = [[0xD7FF, 0xE000], [0xFFFF, 0x10000, 0x10FFFF], [233, 8364, 0x1F600]]
+
+
+def text_slots(cps):
+    """one text in every kind of slot a UnicodeConstraint can govern: bare (str, exactly maxLength, exactly minLength), under
+    Any, as first / middle / last member of a list, in a tuple, as dict value and dict key, in a mutable and an immutable
+    set, two levels down, by keyword, as an Optional argument.  -> [(argspec, args, kwargs)]"""
+    t, n = ["t", cps], len(cps)
+    ok, i1 = ["t", [111, 107]], ["i", 1]
+    A = lambda cs, opt=False: [("a", cs, opt)]
+    st = ["py", "str"]
+    return [
+        (A(st), [t], []), (A(["text", n, 0]), [t], []), (A(["text", None, n]), [t], []), (A(["any"]), [t], []),
+        (A(["list", st, 3, 0]), [["l", [t, ok, ok]]], []), (A(["list", st, None, 0]), [["l", [ok, t, ok]]], []),
+        (A(["list", ["text", n, 0], None, 0]), [["l", [ok, t]]], []),
+        (A(["tuple", [["py", "int"], st]]), [["T", [i1, t]]], []),
+        (A(["dict", ["py", "bytes"], st, None]), [["d", [[["b", [107]], t]]]], []),
+        (A(["dict", st, ["py", "int"], 2]), [["d", [[t, i1]]]], []),
+        (A(["set", st, None, True]), [["s", [t]]], []), (A(["set", st, 2, False]), [["fs", [t, ok]]], []),
+        (A(["dict", ["py", "bytes"], ["tuple", [["py", "int"], ["list", st, None, 0]]], None]), [["d", [[["b", [107]], ["T", [i1, ["l", [t]]]]]]]], []),
+        (A(["any"]), [["l", [["d", [[t, ["l", [t]]]]]]]], []),
+        ([("a", ["py", "int"], False), ("b", st, False)], [i1], [["b", t]]),
+        ([("a", ["py", "int"], False), ("b", ["list", st, None, 0], True)], [i1], [["b", ["l", [t]]]]),
+        ([("a", ["py", "int"], False), ("b", st, True)], [i1, t], []),
+    ]
+
+
+INHERIT_CALLS = [
+    # (tag, chain (root first; what each RemoteInterface declares itself), [(method, args, kwargs)..]): honest calls that conform
+    # to the declaration in force at SOME level; each is made at every level, where the sender's check decides
+    ("looser", [[["m", [("a", ["int", -1], False)]]], [["m", [("a", ["int", 8], False)]]]],
+     [("m", [["i", 2 ** 39]], []), ("m", [["i", 5]], []), ("m", [], [["a", ["i", -(2 ** 63)]]])]),
+    ("retyped", [[["m", [("a", ["py", "int"], False)]]], [["m", [("a", ["list", ["py", "int"], 2, 0], False)]]]],
+     [("m", [["l", [["i", 5], ["i", 2 ** 40]]]], []), ("m", [["i", 5]], [])]),
+    ("argument-added", [[["m", [("a", ["py", "int"], False)]]], [["m", [("a", ["py", "int"], False), ("b", ["py", "bytes"], False)]]]],
+     [("m", [["i", 5], ["b", [1]]], []), ("m", [["i", 5]], [["b", ["b", [1]]]]), ("m", [["i", 5]], [])]),
+    ("argument-removed", [[["m", [("a", ["py", "int"], False), ("b", ["py", "int"], False)]]], [["m", [("a", ["py", "int"], False)]]]],
+     [("m", [["i", 5]], []), ("m", [["i", 5], ["i", 6]], [])]),
+    ("optional-loosened", [[["m", [("a", ["py", "int"], False), ("b", ["bytes", 1, 0], True)]]],
+                           [["m", [("a", ["py", "int"], False), ("b", ["bytes", 3, 0], True)]]]],
+     [("m", [["i", 5]], [["b", ["b", [1, 2, 3]]]]), ("m", [["i", 5], ["b", [1, 2]]], []), ("m", [["i", 5]], [])]),
+    ("inherited-and-added", [[["m", [("a", ["bytes", 3, 0], False)]]], [["n", [("a", ["bytes", 20, 0], False)]]]],
+     [("m", [["b", [1, 2, 3]]], []), ("n", [["b", [7] * 20]], [])]),
+    ("override-in-the-middle", [[["m", [("a", ["bytes", 3, 0], False)]]], [["m", [("a", ["bytes", 20, 0], False)]]], [["n", [("a", ["py", "int"], False)]]]],
+     [("m", [["b", [7] * 20]], []), ("m", [["b", [7] * 3]], []), ("n", [["i", 5]], [])]),
+    ("override-at-the-leaf", [[["m", [("a", ["bytes", 3, 0], False)]], ["n", [("a", ["int", -1], False)]]], [], [["m", [("a", ["list", ["py", "str"], 2, 0], False)]]]],
+     [("m", [["l", [["t", [233]], ["t", []]]]], []), ("m", [["b", [1]]], []), ("n", [["i", -2 ** 31]], [])]),
+]
+
+
+def inject_surrogate(vs, rng):
+    """-> a copy of the value spec in which one text got a lone surrogate in place of / next to one of its characters, or
+    None when the value holds no text"""
+    import copy
+    vs = copy.deepcopy(vs)
+    texts = []
+
+    def walk(x):
+        if x[0] == "t":
+            texts.append(x)
+        elif x[0] in ("l", "T", "s", "fs"):
+            for y in x[1]:
+                walk(y)
+        elif x[0] == "d":
+            for a, b in x[1]:
+                walk(a)
+                walk(b)
+        elif x[0] == "sh":
+            walk(x[2])
+    walk(vs)
+    if not texts:
+        return None
+    t = rng.choice(texts)
+    sur = rng.choice([0xD800, 0xDBFF, 0xDC00, 0xDCE9, 0xDFFF])
+    if t[1]:
+        t[1][rng.randrange(len(t[1]))] = sur            # same number of characters: the length limits still hold
+    else:
+        return None
+    return vs
+
+
+def result_cases(ctx, S, E):
+    """"and symmetrically for results": the target returns text that its result constraint accepts -- without a UTF-8
+    form, and the encodable neighbours -- bare, in a list, as a dict value, under Any.  Encodable: the callback gets it.
+    Not encodable: that one answer is refused on the target's side (the caller's Deferred fails with a Violation), the
+    connection stays usable.  -> records for the correspondence (send_answer / recv_answer)"""
+    from foolscap.constraint import IConstraint
+    recs = []
+    for cps in UNENCODABLE + ENCODABLE_EDGE:
+        t, n = ["t", cps], len(cps)
+        for cs, vs in [(["py", "str"], t), (["text", n, 0], t), (["list", ["py", "str"], None, 0], ["l", [["t", [111]], t]]),
+                       (["dict", ["py", "bytes"], ["py", "str"], None], ["d", [[["b", [107]], t]]]), (["any"], ["T", [t, ["i", 1]]])]:
+            val = S.to_py(vs)
+            resp = S.build(cs)
+            w = S.World([], [], resp, result=val, vocab=ctx.rng.choice([0, 1]))
+            try:
+                w.ms.checkResults(val, False)
+                sender_ok = True
+            except S.Violation:
+                sender_ok = False
+            res = w.call((), {})
+            out = S.outcome_of(res)
+            bad = S.unencodable(vs)
+            case = dict(direction="result", result_constraint=cs, value=vs)
+            ctx.case(["c12-result", cs, vs], nontrivial=sender_ok)
+            ctx.hist("result_text", "%s/%s" % ("unencodable" if bad else "encodable", out[0] if w.alive() else "dead"))
+            if not sender_ok:
+                ctx.fail("oracle/checkObject-vs-documented-meaning", "checkResults refuses text within the length limits: %r" % (case,), replay=case)
+                continue
+            if not w.alive() or out[0] == "dead":
+                code = 3
+                ctx.fail("oracle/receiver-drops-connection", "the target's result check accepted the value but the connection was lost "
+                         "while the caller decoded the answer: %r (%s; receive errors %r)" % (case, out[1], w.recv_errors), replay=case)
+            elif out[0] == "ok":
+                code = 1 if S.canon(out[1]) == S.canon_vs(vs) else 4
+                if code == 4:
+                    ctx.fail("oracle/delivered-differs", "the callback got another value than the method returned: %r -> %r"
+                             % (case, S.canon(out[1])), replay=case)
+            elif out[0] in ("violation-local", "violation-remote"):
+                code = "V"
+                if not bad:
+                    ctx.fail("oracle/result-not-delivered", "the target's result check accepted the value but the caller got %r: %r"
+                             % (out, case), replay=case)
+                elif not w.probe():
+                    ctx.fail("oracle/serialization-refusal-not-clean", "an answer holding text without a UTF-8 form was refused, but the "
+                             "connection no longer serves other calls: %r" % (case,), replay=case)
+            else:
+                code = 0
+                ctx.fail("oracle/result-not-delivered", "the target's result check accepted the value but the caller got %r: %r"
+                         % (out, case), replay=case)
+            recs.append(dict(case=case, ms=ms_term(S, w.ms), obj=S.to_obj(S.canon_vs(vs)), vocab=w.vocab, code=code))
+    return recs
+
+
 def oracle(ctx, S, E):
     cases = []
     rng = ctx.rng
 
-    def do(tag, argspec, args_vs, kwargs_vs, vocab=None, direct=None, per_instance=None, flag=None):
+    def do(tag, argspec, args_vs, kwargs_vs, vocab=None, direct=None, per_instance=None, flag=None, inherit=None):
         if vocab is None:
             vocab = ctx.rng.choice([0, 1, 1])          # both initial vocab tables a negotiated connection can have
         if direct is None:
             direct = ctx.rng.random() < 0.4            # both public ways of declaring the method schema
         if per_instance is None:                       # interface declared on the instance; one python class per group
             per_instance = ("c%d" % ctx.rng.randrange(6)) if ctx.rng.random() < 0.3 else False
-        echo = len(argspec) == 1 and len(args_vs) == 1 and not argspec[0][2] and ctx.rng.random() < 0.5
+        echo = len(argspec) == 1 and len(args_vs) == 1 and not argspec[0][2] and ctx.rng.random() < 0.5 and not inherit
         preamble = ctx.rng.random() < (0.6 if tag == "shared" else 0.25)
         ctx.hist("after_a_refused_call", preamble)
         ctx.hist("vocab_table", vocab)
         ctx.hist("schema_declared_by", "RemoteMethodSchema(**kwargs)" if direct else "prototype function")
         ctx.hist("interface_declared_on", "instance" if per_instance else "class")
+        ctx.hist("interface_inheritance", "%s, level %d of %d" % (inherit["tag"], inherit["level"], len(inherit["chain"])) if inherit else "-")
         try:
-            r = one_call(S, E, argspec, args_vs, kwargs_vs, vocab, direct, per_instance, echo, preamble, flag)
+            r = one_call(S, E, argspec, args_vs, kwargs_vs, vocab, direct, per_instance, echo, preamble, flag, inherit)
         except Exception as e:
             import traceback
             ctx.fail("oracle/implementation-raised", "building the schema or calling through it raised %s: %r; case %s"
@@ -397,9 +601,9 @@ def oracle(ctx, S, E):
                      replay=dict(argspec=argspec, args=args_vs, kwargs=kwargs_vs, traceback=traceback.format_exc()[-1500:]))
             cases.append(None)
             return
-        judge(ctx, S, tag, argspec, args_vs, kwargs_vs, r)
+        judge(ctx, S, tag, argspec, args_vs, kwargs_vs, r, inherit)
         nontriv = r["sender_ok"] and r["sent"]
-        ctx.case(["c12", argspec, args_vs, kwargs_vs, flag], nontrivial=nontriv)
+        ctx.case(["c12", argspec, args_vs, kwargs_vs, flag, inherit], nontrivial=nontriv)
         ctx.sample(dict(argspec=argspec, args=str(args_vs)[:200], kwargs=str(kwargs_vs)[:100], outcome=r["outcome"]))
         cases.append(dict(tag=tag, argspec=argspec, args=args_vs, kwargs=kwargs_vs, r=r))
     # corpus (regression witnesses) first
@@ -460,6 +664,18 @@ def oracle(ctx, S, E):
         do("unknown-flag", spec, [["i", 1]], [["z", ["i", 5]]], None, True, None, flag)
         do("unknown-flag", spec, [], [["a", ["i", 1]], ["z", ["l", [["i", 5]]]]], None, True, None, flag)
         do("unknown-flag", spec, [["t", [120]]], [], None, True, None, flag)
+    # text without a UTF-8 form (and its encodable neighbours) in every kind of slot a UnicodeConstraint governs
+    for i, cps in enumerate(UNENCODABLE + ENCODABLE_EDGE):
+        for j, (spec, a, kw) in enumerate(text_slots(cps)):
+            do("text-form", spec, a, kw, (i + j) % 2)
+    # both ends share a RemoteInterface that derives from another one and re-declares / inherits / adds methods
+    for tag, chain, calls_ in INHERIT_CALLS:
+        for level in range(len(chain)):
+            for meth, a, kw in calls_:
+                inh = dict(tag=tag, chain=chain, level=level, meth=meth)
+                spec = effective_argspec(inh)
+                if spec is not None:
+                    do("inherit:" + tag, spec, a, kw, None, None, None, None, inh)
     late_registration(ctx, S, E)
     remote_outbound(ctx, S, E)
     # one container object occurring twice in a call, under every container constraint kind: a fixed sweep (every kind,
@@ -485,6 +701,7 @@ def oracle(ctx, S, E):
         ctx.fail("oracle/shared-argument-rejected", "m(l, l) with one list object was not delivered: %r" % (S.outcome_of(res),),
                  replay=dict(args="l=[1,2]; m(l,l)"))
     n = ctx.n(420, 6000)
+    irng = random.Random(977 * ctx.seed + 12)          # its own stream: which generated calls go through a derived interface
     for i in range(n):
         nargs = rng.choice([1, 1, 1, 2, 3])
         depth = rng.choice([1, 2, 2, 3])
@@ -511,7 +728,27 @@ def oracle(ctx, S, E):
             # tree-valued model does not describe (and which hides D7a there); keep such inputs out of the generated family
             ctx.hist("skipped", "shared-empty-tuple")
             continue
-        do("gen", argspec, args_vs, kwargs_vs)
+        known_region = set()
+        for (n_, cs_, _), v_ in list(zip(argspec, args_vs)) + [(sp_, v_) for sp_ in argspec for n2_, v_ in kwargs_vs if n2_ == sp_[0]]:
+            known_region |= S.regions(cs_, S.canon_vs(v_))
+        if rng.random() < 0.04 and not known_region:
+            # one text of the call gets a lone surrogate: still accepted by every length limit, but it has no UTF-8 form.
+            # (Not where the call also touches a known defective region: there the receiver has already dropped the
+            # connection on the tokens sent BEFORE the slicer reaches the text, which the model's atomic send_call does not
+            # describe.)
+            pool = [("a", k) for k in range(len(args_vs))] + [("k", k) for k in range(len(kwargs_vs))]
+            rng.shuffle(pool)
+            for where, k in pool:
+                v2 = inject_surrogate(args_vs[k] if where == "a" else kwargs_vs[k][1], rng)
+                if v2 is not None:
+                    if where == "a":
+                        args_vs[k] = v2
+                    else:
+                        kwargs_vs[k] = [kwargs_vs[k][0], v2]
+                    ctx.hist("injected", "lone-surrogate")
+                    break
+        inh = wrap_in_chain(S, argspec, irng) if irng.random() < 0.1 else None
+        do("gen", argspec, args_vs, kwargs_vs, None, None, None, None, inh)
     return [c for c in cases if c is not None]
 
 
@@ -596,7 +833,7 @@ def canon_keep_sh(S, vs):
     return S.canon_vs(vs)
 
 
-def correspond(ctx, S, cases, diff):
+def correspond(ctx, S, cases, diff, results=()):
     nbad = 0
 
     def bad(kind, what, replay):
@@ -604,7 +841,7 @@ def correspond(ctx, S, cases, diff):
         nbad += 1
         ctx.fail("correspondence/" + kind, what, replay=replay, has_input=False)
     # 1. call level: sender (checkAllArgs + slice) then receiver (recv_call), against the real callRemote
-    CODE = {"delivered": 1, "receiver-rejects": 2, "dead": 3, "sender-rejects": 9}
+    CODE = {"delivered": 1, "receiver-rejects": 2, "dead": 3, "sender-rejects": 9, "serialization-refused": 8}
     for lo in range(0, len(cases), 250):
         chunk = cases[lo:lo + 250]
         rows = []
@@ -628,8 +865,11 @@ def correspond(ctx, S, cases, diff):
 Eval vm_compute in map (fun x => let '(ms, a, kw, voc, shared, p, k) := x in
    match checkAllArgs ms a kw return Z with
    | Exc _ => 9
-   | Ok _ => if (shared : bool) then (if ser_args voc a kw p k then ccode (recv_call ms p k) a kw else 7)
-             else match send_call voc ms a kw return Z with None => 8 | Some pk => ccode (recv_call ms (fst pk) (snd pk)) a kw end
+   | Ok _ => match send_call voc ms a kw return Z with
+             | None => 8                                 (* refused locally while serializing: text without a UTF-8 form *)
+             | Some pk => if (shared : bool) then (if ser_args voc a kw p k then ccode (recv_call ms p k) a kw else 7)
+                          else ccode (recv_call ms (fst pk) (snd pk)) a kw
+             end
    end) cases.
 """
         try:
@@ -668,7 +908,28 @@ Eval vm_compute in map (fun x => let '(ms, o, voc) := x in
                     "value, 2 errback at the caller, 3 connection lost, 9 refused by the target's outbound check), implementation %r"
                     % (str(dict(argspec=c["argspec"], value=c["args"]))[:1200], m, c["r"]["echo"]),
                     dict(argspec=c["argspec"], args=c["args"], model=m, impl=list(c["r"]["echo"])))
-    ctx.extra["result_direction_cases"] = len(echoes)
+    # 1c. results that are / hold text with and without a UTF-8 form: send_answer (None: refused on the target's side) and
+    # the caller's recv_answer against what the callRemote Deferred fired with
+    results = list(results)
+    if results:
+        rows = ["(%s, %s, vocab_table %d)" % (r["ms"], r["obj"], r["vocab"]) for r in results]
+        body = EQB + "Definition cases : list (mschema * obj * list (list Z)) := " + coq_list(rows) + ".\n" + """
+Eval vm_compute in map (fun x => let '(ms, o, voc) := x in
+   match send_answer voc ms o return Z with None => 9 | Some w => acode (recv_answer (ms_resp ms) w) o end) cases.
+"""
+        try:
+            (vals,) = ctx.coq_eval("C12_result_text", body, requires=REQ)
+        except common.CoqEvalError as e:
+            bad("broken", "the model could not be evaluated: " + str(e)[-1500:], None)
+            return
+        for r, m in zip(results, vals):
+            ctx.traces += 1
+            if not (m == r["code"] or (r["code"] == "V" and m in (2, 9))):
+                bad("result", "model and implementation disagree on the RESULT direction for %r: model code %r (1 callback with the "
+                    "value, 2 errback at the caller, 3 connection lost, 9 refused on the target's side), implementation %r "
+                    "(V: the caller's Deferred failed with a Violation, the connection stayed up)" % (r["case"], m, r["code"]),
+                    dict(case=r["case"], model=m, impl=r["code"]))
+    ctx.extra["result_direction_cases"] = len(echoes) + len(results)
     # 2. checkObject
     oc = diff["obj"]
     for lo in range(0, len(oc), 450):
